@@ -24,8 +24,8 @@ ANCHOR_FILES = ["src/ropt/config/utils.py", "src/ropt/config/validated_types.py"
 RULE = ("case = one generated dictionary (valid, or valid + one invalidating mutation); non-trivial if validation was attempted and judged; distinct key = case index; "
         "monitor_counters: attributes and arrays attacked, fields compared after re-validation")
 ASSUMPTIONS = ["filter/estimator/sampler index maps are generated at full length (their broadcasting is not part of the statement)"]
-REQUIRED = {"quick": {"attrs_attacked": 20000, "arrays_attacked": 9000, "revalidate_fields_compared": 20000, "rejections_checked": 217, "canonical_checked": 682, "section_objects_compared_after_use": 3500, "with_relative_perturbations": 144, "with_transform_context": 200, "with_negative_objective_weight": 100, "section_objects_reused": 600, "__nontrivial__": 900},
-            "thorough": {"attrs_attacked": 500000, "arrays_attacked": 241877, "revalidate_fields_compared": 500000, "rejections_checked": 5977, "canonical_checked": 18022, "section_objects_compared_after_use": 90000, "with_relative_perturbations": 4147, "with_transform_context": 5000, "section_objects_reused": 15000, "__nontrivial__": 24000}}
+REQUIRED = {"quick": {"attrs_attacked": 20000, "arrays_attacked": 9000, "revalidate_fields_compared": 20000, "rejections_checked": 217, "canonical_checked": 682, "section_objects_compared_after_use": 3500, "with_nearly_normalized_weights": 100, "with_relative_perturbations": 144, "with_transform_context": 200, "with_negative_objective_weight": 100, "section_objects_reused": 600, "__nontrivial__": 900},
+            "thorough": {"attrs_attacked": 500000, "arrays_attacked": 241877, "revalidate_fields_compared": 500000, "rejections_checked": 5977, "canonical_checked": 18022, "section_objects_compared_after_use": 90000, "with_nearly_normalized_weights": 2500, "with_relative_perturbations": 4147, "with_transform_context": 5000, "section_objects_reused": 15000, "__nontrivial__": 24000}}
 N = {"quick": 1500, "thorough": 40000}
 
 
@@ -67,6 +67,17 @@ def gen_dict(rng):
         ow[j] = -0.5 * ow[j]
         if ow.sum() <= 0.1 * np.abs(ow).sum():
             ow[j] = -0.1 * abs(ow[j])
+    if rng.random() < 0.2:
+        # weights as a user types them: nearly normalized (six decimals), the sum is one only after validation
+        if R > 1:
+            rw = np.round(rw / rw.sum(), 6)
+            if rw.sum() == 1.0:
+                rw[int(np.argmax(rw))] += 4e-6
+        if no > 1 and np.all(ow > 0):
+            ow = np.round(ow / ow.sum(), 6)
+            if ow.sum() == 1.0:
+                ow[int(np.argmax(ow))] -= 3e-6
+        meta["nearly_normalized_weights"] = True
     cfg = {"variables": var,
            "realizations": {"weights": rw.tolist()},
            "objectives": {"weights": ow.tolist()}}
@@ -302,6 +313,8 @@ def run_case(case, obs):
     cfg = EnOptConfig.model_validate(d, context=make_transforms(tspec) if tspec else None)
     obs.nontrivial(case["i"])
     obs.count("canonical_checked")
+    if meta.get("nearly_normalized_weights"):
+        obs.count("with_nearly_normalized_weights")
     if meta.get("negative_objective_weight"):
         obs.count("with_negative_objective_weight")
     # ---- canonical form
